@@ -45,7 +45,7 @@ func init() {
 		Level: "exploration",
 		// the classes added later come last, so that the case indices (and per-case PRNGs) of the earlier classes never move
 		Cases: func(tier string) int {
-			return forcedCases + inflightN(tier) + randomN(tier) + startupN(tier) + rejectedN(tier)
+			return forcedCases + inflightN(tier) + randomN(tier) + startupN(tier) + rejectedN(tier) + retryN(tier) + closetoN(tier)
 		},
 		Rule: "forced part: the RunHandlers goroutine is parked right after a handler's Started() channel closed; the goroutine that waited on Started() then calls Stop() and Stopped() (must not panic, Stopped() must be non-nil) and, after the release, Stopped() must close; " +
 			"while still parked, a second Run is issued (must be refused with an error); optionally the Run context is cancelled during the start-up (Run must still return nil); x {handler added before Run, added after Run and started by RunHandlers} x {1..3 handlers} x {scripted, GoChannel subscriber} x repeats. " +
@@ -63,13 +63,24 @@ func init() {
 			"After Stop / subscriptions closed: the start-up completes (Running() closes with every handler subscribed, resp. RunHandlers returns and every Started() closes), Stopped() of the stopped handlers closes, the others handle a new message, then the rest is ended {Stop all, cancel, Close, subscriptions closed} and the router closes itself, Run returns nil; one Subscribe per started handler. " +
 			"rejected-call part: {AddHandler, AddNoPublisherHandler, both} with a name still in use (refused: panics with DuplicateHandlerNameError, recovered by the harness) at {before Run, while Run is parked in the middle of starting handlers, after Running(), after late AddHandler calls (the name may be that of a registered handler not started yet), after RunHandlers, after a Stop} x ending {Stop all, cancel of the Run context, Close, subscriptions closed} x {scripted, GoChannel} x repeats, 1..3 handlers before Run + 1..2 late; " +
 			"optionally the name of a handler that has stopped is used again (accepted: RunHandlers must start the new handler once and it handles a message; refused: not judged). The whole remaining program is judged as if the refused call had not been made: Running() and the message emitted at that instant, RunHandlers starting the late handlers once, Stop ending one handler while the others keep handling, the router closing itself when the last handler ends / the Run context is cancelled / Close, Run returning nil, no Subscribe on the subscriber of a refused call. " +
+			"retry part: a start-up call made inside RunHandlers fails for a while {Subscribe of chosen handlers returns an error on its first 1..2 calls, a subscriber decorator / a publisher decorator returns an error on 1..3 chosen invocations} x whose start-up {an explicit RunHandlers call for 1..3 handlers added after Run with 0..2 handlers running already (0: Run was started without handlers), Run's own start-up of 2..4 handlers (Run returns the error; what it returns is not judged)} " +
+			"x ending x {scripted, GoChannel} x repeats; the caller calls RunHandlers again (one call, or two concurrent calls per attempt) until it returns nil; between the attempts optionally {a running handler is stopped, a second Run (refused), one more AddHandler}. A RunHandlers call may only return an error if a start-up call failed during it. " +
+			"From then on the program is judged as if the handlers had simply been started later: every Started() closes and the handler handles a message, further RunHandlers calls return nil and subscribe nothing, exactly one Subscribe that succeeded per started handler (and no call beyond the refused ones and that one), " +
+			"1..(running-1) handlers are stopped one by one {the ones whose start-up had failed, the others}: Stopped() closes, the others handle a new message, and at quiescence after every refused RunHandlers call and after every Stop the router has not closed and Run has not returned as long as a registered handler has not ended (clause closed-before-last-handler-ended); " +
+			"then the ending {Stop all, cancel, Close, subscriptions closed}: the router closes itself and Run returns nil (start-up of Run failed: IsClosed() becomes true), a second Run is refused. Scripted subscribers of this class end a subscription (context cancelled / Close) only once the harness has allowed that handler to end, " +
+			"which it does before every step that is meant to end it: a handler torn down by the router without being asked to stays observable. " +
+			"close-timeout part: CloseTimeout 20..50 ms; 1..3 handlers (optionally one of them added after Run and started by RunHandlers), each has handled a message; then {1..3 handler functions are busy with a message - held inside the handler function or inside Publish of the handler's publisher - when {the Run context is cancelled, every handler is stopped, Close is called (1..2 concurrent calls), the subscribers close every subscription, cancel and Close together}; " +
+			"1..2 handlers were added after Run and never started - no RunHandlers call, or one whose Subscribe was refused - when {Close is called, the Run context is cancelled and then Close is called}} x release {after the close has run into CloseTimeout (quiescence with the CloseTimeout timer counted as a pending timer), 0..2xCloseTimeout after the event} x {scripted, GoChannel} x repeats. " +
+			"Whatever Close returned: once the busy handler functions have returned, Close has returned, the router is closed, Run has returned nil, a second Run is refused, and optionally a further Close call returns. (Cancel with a never-started handler: whether Run returns before the Close call is counted in closeto_obs_*, not judged.) " +
 			"Oracle: when Running() is observed closed every handler added before Run holds a subscription and a message emitted at that instant is handled; exactly one Subscribe per handler whatever the number of RunHandlers calls; after Started(): Stop() does not panic, Stopped() is non-nil and closes; " +
 			"after stopping a handler, handlers that do not share its publisher still handle new messages; when the last handler ends or the Run context is cancelled Run returns nil (quiescence detector); a second Run returns an error. " +
-			"Non-trivial: forced point reached / in-flight stage reached / program contained RunHandlers repetition, a Stop or a post-Running emission / the start-up event was issued with >= 1 handler still to start (or before Running() closed) / >= 1 call was refused. Distinct = (program, hook fingerprint).",
+			"Non-trivial: forced point reached / in-flight stage reached / program contained RunHandlers repetition, a Stop or a post-Running emission / the start-up event was issued with >= 1 handler still to start (or before Running() closed) / >= 1 call was refused / >= 1 RunHandlers (or Run) call returned an injected start-up error and was retried / >= 1 close ran into CloseTimeout (Close returned an error or the router logged that its own close failed). Distinct = (program, hook fingerprint).",
 		Assumptions: []string{
 			"handlers are not added while the router is shutting down; subscribers honour their context (message.Subscriber contract)",
 			"start-up part: RunHandlers is called with the Run context; after Close / cancel during a start-up nothing is demanded about the handlers that were not started yet (started and torn down, or never started: both accepted)",
 			"rejected-call part: a refused call is one that panics with a value the caller recovers; should AddHandler accept a name that is still registered the case is inconclusive (no model of two handlers under one name), never a violation",
+			"retry part: a start-up fault is a Subscribe / decorator call that returns an error and leaves nothing behind; after a start-up fault inside Run itself nothing is demanded of that Run call, and the handlers it had started already may end with it (both accepted)",
+			"close-timeout part: nothing is demanded of what Close returns, nor of the instant at which Run returns relative to the busy handler functions; the verdict is taken after they have returned, by the quiescence detector with CloseTimeout timers counted as pending timers (no wall-clock bound)",
 			"data races are recorded in the evidence but only panics/wrong outcomes fail this property",
 		},
 		Run: run,
@@ -90,26 +101,40 @@ func run(e *vlib.Env) vlib.Result {
 	if j -= randomN(e.Tier); j < startupN(e.Tier) {
 		return startup(e, j)
 	}
-	return rejected(e, j-startupN(e.Tier))
+	if j -= startupN(e.Tier); j < rejectedN(e.Tier) {
+		return rejected(e, j)
+	}
+	if j -= rejectedN(e.Tier); j < retryN(e.Tier) {
+		return retry(e, j)
+	}
+	return closeto(e, j-retryN(e.Tier))
 }
 
 type hrec struct {
-	k       int
-	name    string
-	topic   string
-	sub     *vlib.Sub
-	pub     *vlib.Pub
-	h       *message.Handler
-	handled atomic.Int32
-	gate    atomic.Pointer[chan struct{}]
-	late    bool
-	stopped bool
-	shared  int
+	k          int
+	name       string
+	topic      string
+	sub        *vlib.Sub
+	pub        *vlib.Pub
+	h          *message.Handler
+	handled    atomic.Int32
+	gate       atomic.Pointer[chan struct{}]
+	late       bool
+	stopped    bool
+	shared     int
+	pubGate    atomic.Pointer[chan struct{}] // close-timeout class: Publish of the handler's publisher is held while set
+	publishing atomic.Int32                  // Publish calls entered
+	ss         *startSub                     // fault / retry and close-timeout classes: the subscriber handed to the router
+	faults     int                           // Subscribe calls of this handler that are made to fail
 }
 
 // redundantRun calls Run on a router whose first Run was accepted earlier and judges "a second Run returns an error".
 // The call is made on a goroutine of its own: a Run that is (wrongly) accepted blocks until the router closes, or panics.
 func redundantRun(res *vlib.Result, r *message.Router, what, spec string) {
+	redundantRunO(res, r, what, spec, wo)
+}
+
+func redundantRunO(res *vlib.Result, r *message.Router, what, spec string, wo vlib.WaitOpts) {
 	type run2 struct {
 		err   error
 		panic any
@@ -1146,11 +1171,21 @@ type world struct {
 	onSubscribe func(h *hrec)
 	// releases of everything the case may still hold (parks, held Subscribe calls); idempotent functions
 	releases []func()
+	// wo: how the quiescence detector treats the router's CloseTimeout timer (1 h: not a timer; short: a visible timer)
+	wo vlib.WaitOpts
+	// abandoned: the case ends without teardown (see stillOpen)
+	abandoned bool
+	// mkSub, if set, supplies the subscriber handed to the router for a handler (default: the scripted subscriber / the GoChannel)
+	mkSub func(h *hrec) message.Subscriber
 }
 
 func newWorld(e *vlib.Env, res *vlib.Result, spec string, useGC bool) *world {
-	w := &world{res: res, spec: spec, id: e.ID(), useGC: useGC, runDone: make(chan struct{})}
-	w.r, _ = message.NewRouter(message.RouterConfig{CloseTimeout: time.Hour}, watermill.NopLogger{})
+	return newWorldCfg(e, res, spec, useGC, time.Hour, watermill.NopLogger{}, wo)
+}
+
+func newWorldCfg(e *vlib.Env, res *vlib.Result, spec string, useGC bool, closeTimeout time.Duration, logger watermill.LoggerAdapter, o vlib.WaitOpts) *world {
+	w := &world{res: res, spec: spec, id: e.ID(), useGC: useGC, runDone: make(chan struct{}), wo: o}
+	w.r, _ = message.NewRouter(message.RouterConfig{CloseTimeout: closeTimeout}, logger)
 	if useGC {
 		w.ps = gochannel.NewGoChannel(gochannel.Config{}, watermill.NopLogger{})
 	}
@@ -1169,13 +1204,26 @@ func (w *world) add(k, gen int) (*hrec, any) {
 		}
 	}
 	h.pub = &vlib.Pub{Name: fmt.Sprintf("%s-%d.%d", w.id, k, gen)}
+	h.pub.Script = func(int, string, []*message.Message) error {
+		h.publishing.Add(1)
+		if g := h.pubGate.Load(); g != nil {
+			<-*g // the broker takes its time to confirm the publish
+		}
+		return nil
+	}
 	var sub message.Subscriber = h.sub
 	if w.useGC {
 		sub = w.ps
 	}
+	if w.mkSub != nil {
+		sub = w.mkSub(h)
+	}
 	p := safely(func() {
 		h.h = w.r.AddHandler(h.name, h.topic, sub, h.topic+"/out", h.pub, func(m *message.Message) ([]*message.Message, error) {
 			h.handled.Add(1)
+			if g := h.gate.Load(); g != nil {
+				<-*g // the handler function is busy until the harness opens the gate
+			}
 			return []*message.Message{message.NewMessage(m.UUID+"/o", nil)}, nil
 		})
 	})
@@ -1201,7 +1249,7 @@ func (w *world) emit(h *hrec, tag string) bool {
 
 func (w *world) expectHandled(h *hrec, want int32, clause, what string) {
 	w.events++
-	if oc, d := vlib.WaitUntil(func() bool { return h.handled.Load() >= want }, wo); oc == vlib.Stuck {
+	if oc, d := vlib.WaitUntil(func() bool { return h.handled.Load() >= want }, w.wo); oc == vlib.Stuck {
 		w.res.Fail(clause, "%s: handler %s handled %d message(s), want %d (quiescent): %s", what, h.name, h.handled.Load(), want, w.spec)
 		w.res.Witness = d
 	} else if oc == vlib.Inconclusive {
@@ -1226,7 +1274,7 @@ func (w *world) startRun() {
 
 func (w *world) waitRunning(what string) bool {
 	w.events++
-	oc, d := vlib.WaitClosed(w.r.Running(), wo)
+	oc, d := vlib.WaitClosed(w.r.Running(), w.wo)
 	if oc == vlib.Stuck {
 		w.res.Fail("running-never-closed", "%sRunning() never closed (quiescent): %s", what, w.spec)
 		w.res.Witness = d
@@ -1242,7 +1290,7 @@ func (w *world) runHandlers(what string) bool {
 	var err error
 	go func() { defer close(done); err = w.r.RunHandlers(w.ctx) }()
 	w.events++
-	oc, d := vlib.WaitClosed(done, wo)
+	oc, d := vlib.WaitClosed(done, w.wo)
 	switch {
 	case oc == vlib.Stuck:
 		w.res.Fail("runhandlers-stuck", "%s: RunHandlers never returned (quiescent): %s", what, w.spec)
@@ -1257,7 +1305,7 @@ func (w *world) runHandlers(what string) bool {
 
 func (w *world) waitStarted(h *hrec, what string) bool {
 	w.events++
-	oc, d := vlib.WaitClosed(h.h.Started(), wo)
+	oc, d := vlib.WaitClosed(h.h.Started(), w.wo)
 	if oc == vlib.Stuck {
 		w.res.Fail("started-never-closed", "%s: Started() of handler %s never closed (quiescent): %s", what, h.name, w.spec)
 		w.res.Witness = d
@@ -1288,7 +1336,7 @@ func (w *world) waitStopped(h *hrec, st chan struct{}, what string) {
 		return
 	}
 	w.events++
-	if oc, d := vlib.WaitClosed(st, wo); oc == vlib.Stuck && !w.res.Failed() {
+	if oc, d := vlib.WaitClosed(st, w.wo); oc == vlib.Stuck && !w.res.Failed() {
 		w.res.Fail("stopped-never-closes", "%s: Stop() of %s was called after Started() closed but Stopped() never closed (quiescent): %s", what, h.name, w.spec)
 		w.res.Witness = d
 	} else if oc == vlib.Inconclusive {
@@ -1298,6 +1346,12 @@ func (w *world) waitStopped(h *hrec, st chan struct{}, what string) {
 
 // end performs the ending of the program on the handlers that are still running and judges the router's own end.
 func (w *world) end(ending, what string) {
+	what, closeDone := w.doEnding(ending, what)
+	w.judgeEnd(what, closeDone)
+}
+
+// doEnding issues the ending; it returns the description of what was done and, for Close, the channel that closes when Close returned.
+func (w *world) doEnding(ending, what string) (string, chan struct{}) {
 	var closeDone chan struct{}
 	switch ending {
 	case "stop-all":
@@ -1331,7 +1385,7 @@ func (w *world) end(ending, what string) {
 	case "none":
 		// nothing is left to end: the last handler has ended already
 	}
-	w.judgeEnd(what, closeDone)
+	return what, closeDone
 }
 
 // judgeEnd: "when the last handler ends or the Run context is cancelled the router closes itself and Run returns nil;
@@ -1343,7 +1397,7 @@ func (w *world) judgeEnd(what string, closeDone chan struct{}) {
 	}
 	w.events++
 	if closeDone != nil {
-		if oc, d := vlib.WaitClosed(closeDone, wo); oc == vlib.Stuck {
+		if oc, d := vlib.WaitClosed(closeDone, w.wo); oc == vlib.Stuck {
 			res.Fail("never-returned", "%s: Close never returned (quiescent): %s", what, w.spec)
 			res.Witness = d
 			return
@@ -1352,7 +1406,7 @@ func (w *world) judgeEnd(what string, closeDone chan struct{}) {
 			return
 		}
 	}
-	oc, d := vlib.WaitClosed(w.runDone, wo)
+	oc, d := vlib.WaitClosed(w.runDone, w.wo)
 	switch {
 	case oc == vlib.Stuck:
 		res.Fail("run-never-returned", "%s: Run never returned (quiescent): %s", what, w.spec)
@@ -1362,12 +1416,12 @@ func (w *world) judgeEnd(what string, closeDone chan struct{}) {
 	case w.runErr != nil:
 		res.Fail("run-error", "%s: Run returned %v instead of nil: %s", what, w.runErr, w.spec)
 	default:
-		if oc, _ := vlib.WaitUntil(func() bool { return w.r.IsClosed() }, wo); oc == vlib.Stuck {
+		if oc, _ := vlib.WaitUntil(func() bool { return w.r.IsClosed() }, w.wo); oc == vlib.Stuck {
 			res.Fail("router-not-closed", "%s: Run returned but the router is not closed: %s", what, w.spec)
 			return
 		}
 		w.events++
-		redundantRun(res, w.r, "a second Run after the router closed", w.spec)
+		redundantRunO(res, w.r, "a second Run after the router closed", w.spec, w.wo)
 	}
 }
 
@@ -1400,7 +1454,7 @@ func (w *world) teardown() {
 	w.cancel()
 	done := make(chan struct{})
 	go func() { w.r.Close(); close(done) }()
-	vlib.WaitClosed(done, wo)
+	vlib.WaitClosed(done, w.wo)
 	for _, h := range w.hs {
 		h.sub.Close()
 	}
@@ -1415,7 +1469,7 @@ func (w *world) teardown() {
 		w.emitWg.Wait()
 		close(ed)
 	}()
-	vlib.WaitClosed(ed, wo)
+	vlib.WaitClosed(ed, w.wo)
 }
 
 // ---------------------------------------------------------------------------------------------
